@@ -1,2 +1,249 @@
-// stub created by the lead so that the workspace always loads; replace it with the check
-fn main() {}
+//! C05 — RRset signed data equals the RFC 4034/4035 canonical form.
+//!
+//! E-ENUM. TBS family: RRsets (type x every ordered sequence with repetition of 1..3 (thorough: 5)
+//! values of a per-type RDATA alphabet = every permutation of every multiset, duplicates and
+//! canonical duplicates included) x owners x record-owner case x TTL pattern x class x RRSIG
+//! parameter tuples x every Labels value 0..owner_labels+1, through the real `TBS::from_input`,
+//! compared byte for byte with `vref::canon` (RFC 4034 6.2/6.3, RFC 4035 5.3.2, RFC 6840 5.1).
+//! Crypto family: every RRset shape x every supported signing algorithm, built-in sign -> built-in
+//! verify (given and reversed order) -> ring verifies over the reference bytes; reference bytes
+//! signed with ring directly -> built-in `DNSKEY::verify_rrsig`.
+
+mod alpha;
+mod crypto;
+mod tbs;
+
+use hickory_proto::rr::RData;
+use serde_json::json;
+use vcore::{Ctx, Odometer};
+use vref::canon::{Labels, SigParams};
+
+use alpha::{alphabets, nm, sequences, TypeAlpha};
+use tbs::Case;
+
+fn swap_case(l: &Labels) -> Labels {
+    l.iter()
+        .map(|x| {
+            x.iter()
+                .map(|&b| if b.is_ascii_uppercase() { b + 0x20 } else if b.is_ascii_lowercase() { b - 0x20 } else { b })
+                .collect()
+        })
+        .collect()
+}
+
+/// RRSIG parameter tuples (everything except type covered and Labels).
+fn sig_tuples() -> Vec<SigParams> {
+    let t = |algorithm: u8, original_ttl: u32, expiration: u32, inception: u32, key_tag: u16, signer: &str| SigParams {
+        type_covered: 0,
+        algorithm,
+        labels: 0,
+        original_ttl,
+        expiration,
+        inception,
+        key_tag,
+        signer: nm(signer),
+    };
+    vec![
+        t(15, 3600, 1_700_086_400, 1_700_000_000, 12345, "z"),
+        // serial-number wrap of the validity window, upper-case signer, TTL 0
+        t(13, 0, 0x0000_0010, 0xffff_fff0, 0, "Z"),
+        t(8, 0xffff_ffff, 0xffff_ffff, 0, 0xffff, "Sub.Z"),
+        t(5, 1, 1, 2, 256, ""),
+    ]
+}
+
+fn ttl_pattern(pat: u64, n: usize) -> Vec<u32> {
+    match pat {
+        0 => vec![300; n],
+        // descending record TTLs (a response assembled from caches with different remaining TTLs)
+        _ => (0..n).map(|i| 100 * (n - i) as u32).collect(),
+    }
+}
+
+struct Prepared {
+    alpha: TypeAlpha,
+    hr: Vec<RData>,
+    seqs: Vec<Vec<usize>>,
+}
+
+fn main() {
+    let ctx = Ctx::from_args("C05", "exploration");
+    let thorough = !ctx.quick();
+
+    let signer_name = nm("z");
+    let keys = match crypto::keys(&signer_name) {
+        Ok(k) => k,
+        Err(e) => {
+            // the public-key encoding clause is part of "a conforming third-party signer verifies"
+            if e.contains("public key encoding differs") {
+                ctx.with_local(|l| {
+                    l.eval();
+                    l.violation("dnskey-public-key-encoding", &e, || json!({"family": "keys"}))
+                });
+                ctx.finish(false);
+            }
+            vcore::machinery_exit(&format!("key material: {e}"))
+        }
+    };
+
+    if let Some((_key, case)) = ctx.replay_case() {
+        let c = Case::from_json(&case);
+        let hr: Result<Vec<RData>, String> = c.rdatas.iter().map(|r| tbs::hrdata(c.p.type_covered, r)).collect();
+        let hr = hr.unwrap_or_else(|e| vcore::machinery_exit(&format!("replay: RDATA does not decode: {e}")));
+        ctx.with_local(|l| {
+            if case["family"].as_str() == Some("crypto") {
+                let k = keys.iter().find(|k| Some(k.name) == case["key"].as_str()).unwrap_or(&keys[0]);
+                crypto::run_crypto_case(&c, &hr, k, l);
+            } else {
+                tbs::run_tbs_case(&c, &hr, l);
+            }
+        });
+        ctx.finish(false);
+    }
+
+    ctx.set_rule(
+        "E-ENUM. RRsets: type in {A, AAAA, NS, CNAME, PTR, MX, SOA, SRV, NAPTR, TXT, DS, DNSKEY, NSEC, SVCB, HTTPS, CAA, \
+         TYPE65280 (opaque), DNAME, KX; thorough: RP, AFSDB, HINFO}; per-type RDATA alphabets of 3..6 values with mixed-case \
+         embedded names, case-only pairs (canonical duplicates), prefix-related values, compressible name pairs; EVERY ordered \
+         sequence with repetition of 1..3 (thorough 1..5) values = every permutation of every multiset incl. exact duplicates; \
+         owner (name argument) in {z. a.z. A.Z. *.z. x.y.z.; thorough: root}; records carry the owner as given or with swapped case; \
+         record TTLs all 300 or descending 100*k; class IN/CH; 4 RRSIG parameter tuples (original TTL != record TTL, 0 and \
+         2^32-1, validity window wrapping 2^32, upper-case signer, root signer) x every Labels value 0..owner_labels+1. Each \
+         RDATA is decoded from its plain wire form by the real decoder, TBS::from_input is executed and compared byte for byte \
+         with vref::canon. Labels > owner labels must be an error; a wildcard owner whose Labels value counts the '*' is not \
+         judged (RFC 4034 3.1.3 vs RFC 4035 5.3.2). Crypto: every RRset shape of <= 3 (thorough 4) records x {RSASHA256, RSASHA512, ECDSAP256SHA256, \
+         ECDSAP384SHA384, ED25519}: RRSIG::from_rrset -> verify_rrsig (given + reversed order) -> ring verifies the built-in \
+         signature over the reference bytes; reference bytes signed by ring -> verify_rrsig must accept iff the TBS bytes equal \
+         the reference. Non-trivial = distinct cases with >= 2 records whose input order is not the canonical duplicate-free \
+         order, or with embedded names, and every deviating case.",
+    );
+    ctx.assume("vref::canon (RFC 4034 6.2/6.3, RFC 4035 5.3.2, RFC 6840 5.1) is the reference for the signed data");
+    ctx.assume("ring's Ed25519 / ECDSA / RSA PKCS#1 v1.5 primitives are correct (they stand for the conforming third-party signer and validator)");
+    ctx.assume("RDATA values enter hickory through its own wire decoder (the validator's path); C02 owns decoder fidelity");
+
+    // ------------------------------------------------------------------ prepare alphabets
+    let max_len = if thorough { 5 } else { 3 };
+    let mut prepared: Vec<Prepared> = vec![];
+    for a in alphabets(thorough) {
+        let mut hr = vec![];
+        for v in &a.values {
+            match tbs::hrdata(a.code, v) {
+                Ok(r) => hr.push(r),
+                Err(e) => {
+                    ctx.machinery_failure(&format!("alphabet value of {} does not decode: {e} ({:?})", a.name, v));
+                }
+            }
+        }
+        if hr.len() != a.values.len() {
+            continue;
+        }
+        let seqs = sequences(a.values.len(), max_len);
+        prepared.push(Prepared { alpha: a, hr, seqs });
+    }
+    let mut owners: Vec<Labels> = vec![nm("z"), nm("a.z"), nm("A.Z"), nm("*.z"), nm("x.y.z")];
+    if thorough {
+        owners.push(vec![]);
+    }
+    let tuples = sig_tuples();
+    let classes = [1u16, 3];
+
+    // ------------------------------------------------------------------ TBS family
+    let mut total_shapes = 0u64;
+    for pr in &prepared {
+        total_shapes += pr.seqs.len() as u64;
+        // digits: seq, owner, rec-owner case, ttl pattern, class, tuple ; Labels enumerated inside
+        let od = Odometer::new(&[pr.seqs.len() as u64, owners.len() as u64, 2, 2, classes.len() as u64, tuples.len() as u64]);
+        ctx.par_run(od.space(), 64, |i, l| {
+            let d = od.get(i);
+            let seq = &pr.seqs[d[0] as usize];
+            let owner = &owners[d[1] as usize];
+            let rec_owner = if d[2] == 0 { owner.clone() } else { swap_case(owner) };
+            let hr: Vec<RData> = seq.iter().map(|&k| pr.hr[k].clone()).collect();
+            let mut p = tuples[d[5] as usize].clone();
+            p.type_covered = pr.alpha.code;
+            let mut c = Case {
+                tname: pr.alpha.name.to_string(),
+                owner: owner.clone(),
+                rec_owner,
+                class: classes[d[4] as usize],
+                rdatas: seq.iter().map(|&k| pr.alpha.values[k].clone()).collect(),
+                ttls: ttl_pattern(d[3], seq.len()),
+                p,
+            };
+            for labels in 0..=(owner.len() as u8 + 1) {
+                c.p.labels = labels;
+                tbs::run_tbs_case(&c, &hr, l);
+            }
+            if i % 40009 == 11 {
+                c.p.labels = owner.len() as u8;
+                l.sample(c.to_json());
+            }
+        });
+    }
+    ctx.set("rrset_shapes", json!(total_shapes));
+    ctx.set("types", json!(prepared.iter().map(|p| p.alpha.name).collect::<Vec<_>>()));
+    ctx.set("wall_after_tbs_s", json!(ctx.elapsed_s()));
+
+    // ------------------------------------------------------------------ crypto family
+    // every RRset shape x every key; one parameter tuple; owner a.z. (plus the wildcard-reduced
+    // x.y.z. / Labels=1 for the reference-signed direction on the shortest shapes)
+    {
+        let crypto_len = if thorough { 4 } else { 3 };
+        for pr in &prepared {
+            let seqs: Vec<&Vec<usize>> = pr.seqs.iter().filter(|s| s.len() <= crypto_len).collect();
+            let od = Odometer::new(&[seqs.len() as u64, keys.len() as u64]);
+            ctx.par_run(od.space(), 4, |i, l| {
+                let d = od.get(i);
+                let seq = seqs[d[0] as usize];
+                let key = &keys[d[1] as usize];
+                let hr: Vec<RData> = seq.iter().map(|&k| pr.hr[k].clone()).collect();
+                let mut p = tuples[0].clone();
+                p.type_covered = pr.alpha.code;
+                p.labels = 2;
+                let owner = nm("a.z");
+                let c = Case {
+                    tname: pr.alpha.name.to_string(),
+                    owner: owner.clone(),
+                    rec_owner: owner,
+                    class: 1,
+                    rdatas: seq.iter().map(|&k| pr.alpha.values[k].clone()).collect(),
+                    ttls: vec![3600; seq.len()],
+                    p,
+                };
+                crypto::run_crypto_case(&c, &hr, key, l);
+                if seq.len() == 1 {
+                    // wildcard-expanded answer: owner x.y.z., Labels = 1 (signed name *.z.), mixed-case record owner
+                    let mut w = c.clone();
+                    w.owner = nm("x.y.z");
+                    w.rec_owner = nm("X.y.Z");
+                    w.p.labels = 1;
+                    crypto::run_crypto_case(&w, &hr, key, l);
+                }
+                if i % 1009 == 5 {
+                    let mut j = c.to_json();
+                    j["family"] = json!("crypto");
+                    j["key"] = json!(key.name);
+                    l.sample(j);
+                }
+            });
+        }
+    }
+
+    // ------------------------------------------------------------------ vacuity guards
+    let mut need: Vec<String> = vec![
+        "tbs:equal".into(),
+        "tbs:equal:wildcard-reduced-owner".into(),
+        "tbs:labels-exceed-owner:rejected".into(),
+    ];
+    for k in &keys {
+        need.push(format!("refsigned:verified:{}", k.name));
+        need.push(format!("selfsign:verified:{}", k.name));
+        need.push(format!("selfsign:third-party-verifies:{}", k.name));
+    }
+    for class in need {
+        if ctx.outcome_count(&class) == 0 {
+            ctx.machinery_failure(&format!("vacuous run: outcome class {class} was never exercised"));
+        }
+    }
+    ctx.finish(true);
+}
